@@ -55,6 +55,7 @@ type concSock struct {
 	haveID  chan struct{}
 	gotC    []byte // from write tasks (agent loop only)
 	closedS bool   // a close task for it reached the agent
+	aborted bool   // the client reset its connection before it had seen a reply
 }
 
 type concState struct {
@@ -237,6 +238,9 @@ func (e *env) runConc(cc *ConcCase, bound time.Duration) (f *finding, obs map[st
 			}
 			abortWhy := "?"
 			abort := func() {
+				st.mu.Lock()
+				cs.aborted = true
+				st.mu.Unlock()
 				conn.SetLinger(0)
 				conn.Close()
 				aborted.Add(1)
@@ -439,13 +443,33 @@ func (e *env) runConc(cc *ConcCase, bound time.Duration) (f *finding, obs map[st
 		defer opWg.Done()
 		rng := rand.New(rand.NewSource(cc.Seed ^ int64(oi+1)*104729))
 		budget := 14 + 6*cc.Rounds
+		// one kill per operator and a clear in every third scenario, at random places; the rest
+		// is add / list traffic
+		killAt := map[int]bool{rng.Intn(budget): true}
+		clearAt := -1
+		if oi == 0 && !cc.NoClear && cc.Seed%3 == 0 {
+			clearAt = budget/3 + rng.Intn(budget/2)
+		}
 		for n := 0; n < budget; n++ {
 			select {
 			case <-opStop:
 				return
 			default:
 			}
-			switch op := rng.Intn(10); {
+			op := rng.Intn(10) // 0-2 socks list, 4-7 socks add, 9 rportfwd list
+			if op == 3 {
+				op = 0
+			}
+			if op == 8 {
+				op = 9
+			}
+			if killAt[n] {
+				op = 3
+			}
+			if n == clearAt {
+				op = 8
+			}
+			switch {
 			case op < 3:
 				if !doOp("socks list", "") {
 					return
@@ -611,6 +635,10 @@ func (e *env) runConc(cc *ConcCase, bound time.Duration) (f *finding, obs map[st
 	final := ag.checkin()
 	st.delivered += int64(len(final.Tasks))
 	hits := verifhook.Hits("queue.add") - hits0
+	if adds, handed, _ := ag.queueMiscount(); adds > 0 {
+		// per-agent bookkeeping (exact) replaces the process-wide hit counter
+		hits, st.delivered = adds, handed
+	}
 
 	if os.Getenv("C15_DEBUG") != "" {
 		for p, cs := range st.byPort {
@@ -692,7 +720,7 @@ func (e *env) runConc(cc *ConcCase, bound time.Duration) (f *finding, obs map[st
 		pick(false)
 	}
 	if first == nil && !hung.Load() {
-		if held := heldMutexes(ag, 300*time.Millisecond); len(held) > 0 {
+		if held := heldMutexes(ag, time.Second); len(held) > 0 {
 			first = fnd("tables:mutex-held:"+fmt.Sprint(held), "table mutex still locked at quiescence")
 		} else {
 			ids := ag.socksCliIDs()
@@ -711,12 +739,23 @@ func (e *env) runConc(cc *ConcCase, bound time.Duration) (f *finding, obs map[st
 				hist := []string{}
 				for _, id := range unexplained {
 					if cs := st.byID[id]; cs != nil {
-						hist = append(hist, fmt.Sprintf("%08x: dst port %d, agent answered success=%v, close task seen=%v, operator-killed=%v", id, cs.port, cs.port%11 != 0, cs.closedS, st.killed[id]))
+						hist = append(hist, fmt.Sprintf("%08x: dst port %d, agent answered success=%v, close task seen=%v, operator-killed=%v, client reset before reply=%v", id, cs.port, cs.port%11 != 0, cs.closedS, st.killed[id], cs.aborted))
 					} else {
 						hist = append(hist, fmt.Sprintf("%08x: connect task never delivered", id))
 					}
 				}
-				first = fnd("tables:leak:SocksCli", fmt.Sprintf("%d client sockets left in the table at quiescence", len(unexplained)), "sockets", hist)
+				allAborted := true
+				for _, id := range unexplained {
+					if cs := st.byID[id]; cs == nil || !cs.aborted || cs.port%11 == 0 {
+						allAborted = false
+					}
+				}
+				if allAborted {
+					// the lock-step streams' class "client resets before the agent's successful outcome"
+					first = fnd("close:client-rst-before-outcome:not-propagated", fmt.Sprintf("%d client sockets left in the table at quiescence; each had reset its connection before the agent reported a successful connect", len(unexplained)), "sockets", hist)
+				} else {
+					first = fnd("tables:leak:SocksCli", fmt.Sprintf("%d client sockets left in the table at quiescence", len(unexplained)), "sockets", hist)
+				}
 			} else if sv := ag.socksSvrAddrs(); len(sv) > 0 {
 				first = fnd("tables:leak:SocksSvr", fmt.Sprintf("proxies %v left in the table after every proxy was killed", sv))
 			} else if pf := ag.portFwdIDs(); len(pf) > 0 {
